@@ -26,7 +26,7 @@ FLOORS = {
     'thorough': {'evaluations': 30000, 'distinct_nontrivial': 1400, 'grid_cells': 1400, 'outputs_compared': 150000,
                  'identity_cases': 2500, 'idempotence_checked': 150000},
 }
-BUDGET = {'quick': {'reps': 2, 'random': 800}, 'thorough': {'reps': 25, 'random': 8000}}
+BUDGET = {'quick': {'reps': 2, 'random': 800}, 'thorough': {'reps': 100, 'random': 40000}}
 TIMEOUT = {'quick': 900, 'thorough': 7200}
 SPLIT = {'no': 'behaviour', 'requires': 'behaviour', 'forbids': 'behaviour', 'causes': 'trigger', 'some': None}
 
